@@ -22,7 +22,7 @@ LEVEL_NOTE = ("trusts the simulator's TCP model (FIFO pipes, FIN/RST, finite buf
 ASSUMPTIONS = ["benign network only (no loss/RST): C04/C19 own the faulty cases",
                "splice mode runs on AF_UNIX socketpairs (kernel lane) where per-hop timing is distorted; only byte outcomes are judged there"]
 
-LISTENERS = [("http", 3), ("https", 2), ("socks5", 3), ("socks5p", 2), ("socks5auth", 1), ("socks4", 2), ("socks4a", 1), ("sockstls", 1), ("reverse", 2), ("quic", 2)]
+LISTENERS = [("http", 3), ("https", 2), ("socks5", 3), ("socks5p", 2), ("socks5auth", 1), ("socks4", 2), ("socks4a", 1), ("sockstls", 1), ("reverse", 2), ("quic", 2), ("tproxy", 2)]
 CONNECTORS = [("direct", 4), ("http", 3), ("https", 2), ("socks5", 3), ("socks5auth", 1), ("socks4", 2), ("sockstls", 1), ("quic", 2), ("lb", 2), ("chain-http", 2), ("chain-socks", 1), ("chain-quic", 1)]
 
 
@@ -44,6 +44,8 @@ def make_listener(sc, lk, target=None):
         return sc.add_socks_listener("l-sockstls", tls=True)
     if lk == "reverse":
         return sc.add_reverse_listener("l-rev", target)
+    if lk == "tproxy":
+        return sc.add_tproxy_listener("l-tp")
     if lk == "quic":
         return sc.add_quic_listener("l-quic")
     raise ValueError(lk)
@@ -110,7 +112,7 @@ def gen(rng, tier, i):
             lk = "http"
         if ck in ("quic", "chain-quic"):
             ck = "direct"
-    splice = rng.random() < (0.12 if not os.environ.get("C01_FORCE_SPLICE") else 1.0) and lk in ("http", "socks5", "socks5p", "socks4", "socks4a", "reverse") and ck in ("direct", "http", "socks5", "socks4", "chain-http")
+    splice = rng.random() < (0.12 if not os.environ.get("C01_FORCE_SPLICE") else 1.0) and lk in ("http", "socks5", "socks5p", "socks4", "socks4a", "reverse", "tproxy") and ck in ("direct", "http", "socks5", "socks4", "chain-http")
     bufsz = rng.choice([1, 2, 7, 512, 4096, 65536, 1 << 20]) if not splice else rng.choice([1000, 4096, 65536, 1 << 20])
     sc.cfg["ioParams"] = {"bufferSize": bufsz, "useSplice": bool(splice)}
     if splice:
@@ -140,7 +142,7 @@ def gen(rng, tier, i):
     # the (single) destination for reverse listeners, fresh destinations otherwise
     v6_origin = rng.random() < 0.15 and ck in ("direct", "http", "socks5", "chain-http") and lk not in ("socks4", "socks4a", "reverse")
     ntun = rng.choice([1, 1, 2, 3, 4, 6]) if not splice else rng.choice([1, 2])
-    by_name = rng.random() < 0.3 and lk not in ("socks4",)
+    by_name = rng.random() < 0.3 and lk not in ("socks4", "tproxy")   # a diverted connection only ever has an address
     oip = sc.origin_ip(v6_origin)
     oport = sc.port()
     oaddr = ("[%s]:%d" % (oip, oport)) if v6_origin else "%s:%d" % (oip, oport)
